@@ -936,3 +936,61 @@ func litFloat(e ast.Expr) (float64, bool) {
 	}
 	return 0, false
 }
+
+// splitConj splits a specification expression into conjuncts that can be proved separately:
+//   A && B            -> A ; B
+//   P ==> A && B      -> P ==> A ; P ==> B
+// (only at top level; quantifiers and macro calls are left whole). Smaller goals are far more stable for the solvers.
+func splitConj(expr string) []string {
+	expr = strings.TrimSpace(expr)
+	if strings.HasPrefix(expr, "forall ") || strings.HasPrefix(expr, "exists ") {
+		return []string{expr}
+	}
+	if k := topLevelIndex(expr, "==>"); k >= 0 {
+		lhs := strings.TrimSpace(expr[:k])
+		rhs := strings.TrimSpace(expr[k+3:])
+		if topLevelIndex(rhs, "==>") >= 0 || topLevelIndex(rhs, "||") >= 0 {
+			return []string{expr}
+		}
+		parts := splitTopStr(rhs, "&&")
+		if len(parts) <= 1 {
+			return []string{expr}
+		}
+		var out []string
+		for _, p := range parts {
+			out = append(out, "("+lhs+") ==> ("+strings.TrimSpace(p)+")")
+		}
+		return out
+	}
+	if topLevelIndex(expr, "||") >= 0 {
+		return []string{expr}
+	}
+	parts := splitTopStr(expr, "&&")
+	if len(parts) <= 1 {
+		return []string{expr}
+	}
+	var out []string
+	for _, p := range parts {
+		p = strings.TrimSpace(p)
+		// a parenthesised conjunct may itself be a conjunction / implication
+		if strings.HasPrefix(p, "(") && matchClose(p, 0, '(', ')') == len(p)-1 {
+			out = append(out, splitConj(p[1:len(p)-1])...)
+		} else {
+			out = append(out, p)
+		}
+	}
+	return out
+}
+
+func splitTopStr(s, tok string) []string {
+	var out []string
+	for {
+		k := topLevelIndex(s, tok)
+		if k < 0 {
+			out = append(out, s)
+			return out
+		}
+		out = append(out, s[:k])
+		s = s[k+len(tok):]
+	}
+}
